@@ -300,7 +300,7 @@ fn main() {
     let len = ctx.tier.pick(16, 20);
     let maxcap: usize = ctx.tier.pick(4, 6);
     ctx.rule(&format!("unmerged: every A/B history of length {len} (quick 16 / thorough 20) for capacities 1..=4 (thorough 1..=6), each replayed on a fresh fork over an index-valued instrumented source; a step that would put one branch more than `capacity` ahead ends the history (outside the property's domain); modes: by_ref held, by_ref re-split before every step, by_rc, by_ref for k steps then by_rc for every k; every ring start offset; after every step: the branch's k-th frame is k, source pulls == max(posA,posB), pending_frames == lag; non-trivial = a history in which both branches were pulled, distinct by (capacity, start, mode, history)"));
-    ctx.rule("merged: stateright BFS to fixpoint on (lead, min(posA,posB) mod capacity), also for the larger capacities 8, 16, 32, each transition executed on a real fork rebuilt by replaying the BFS witness history; constructor: fork() accepts every empty ring buffer (any start offset) of capacities 1..=4");
+    ctx.rule("merged: stateright BFS to fixpoint on (lead, min(posA,posB) mod capacity), also for the larger capacities 8, 16, 24, 32, 48, each transition executed on a real fork rebuilt by replaying the BFS witness history; constructor: fork() accepts every empty ring buffer (any start offset) of capacities 1..=4");
 
     // constructor
     let mut evals = 0u64;
@@ -371,7 +371,7 @@ fn main() {
         }
     }
     // scale probes (merged run only): larger capacities, fixpoint of (lead, ring phase)
-    for cap in [8usize, 16, 32] {
+    for cap in [8usize, 16, 24, 32, 48] {
         for mode in [Mode::RefHold, Mode::Rc] {
             inst.push((cap, mode));
         }
@@ -390,7 +390,7 @@ fn main() {
     ctx.set("merged_unique_states", json!(uniq));
     ctx.set("merged_max_depth", json!(res.iter().map(|r| r.1).max()));
     let soak_steps = ctx.tier.pick(50_000, 1_000_000);
-    for cap in [1usize, 2, 3, 5, 8, 64] {
+    for cap in [1usize, 2, 3, 5, 8, 48, 64, 96] {
         guard::enter(&json!({"sys":"fork_soak","cap":cap,"steps":soak_steps}).to_string());
         ctx.add_evals(soak_steps as u64);
         ctx.add_transitions(soak_steps as u64);
@@ -398,7 +398,7 @@ fn main() {
             ctx.violation(&k, json!({"sys":"fork_soak","cap":cap,"steps":soak_steps}), m, Some(&|| soak(cap, soak_steps).map(|e| e.1)));
         }
     }
-    ctx.rule(&format!("soak probes: one deterministic interleaving of {soak_steps} pulls (bursts of cycling length, always inside the boundary) per capacity in 1,2,3,5,8,64 on a single fork: by_ref re-split every 97 steps for the first half, by_rc for the second (single executions, labelled)"));
+    ctx.rule(&format!("soak probes: one deterministic interleaving of {soak_steps} pulls (bursts of cycling length, always inside the boundary) per capacity in 1,2,3,5,8,48,64,96 on a single fork: by_ref re-split every 97 steps for the first half, by_rc for the second (single executions, labelled)"));
     ctx.set("exhaustive", json!(true));
     ctx.set("exhaustive_scope", json!(format!("every in-boundary interleaving up to length {len} for capacities 1..=4 (unmerged); the merged run reaches a fixpoint of (lead, ring phase) and so covers longer histories under the stated abstraction")));
     ctx.sample(case_json(3, 1, Mode::RefHold, 0b0001_1101_0110, 12));
